@@ -16,7 +16,16 @@ for lf in sorted(glob.glob("/tmp/seedq*.log")):
     for l in open(lf):
         if l.startswith(f"SEEDQ {item}:"):
             line = l.strip()
+re_line = ""
+for lf in sorted(glob.glob("/tmp/recheck*.log")):
+    for l in open(lf):
+        if l.startswith(f"RECHECK {item}:"):
+            re_line = l.strip()
 m = json.load(open(dst + "/meta.json"))
 m["lead"] = {"confirmed": "in scratch worktree /tmp/wt-seedq (tools/seed_queue.sh): " + line, "note": note}
+if re_line:
+    m["lead"]["recheck"] = "after the check was strengthened (tools/seed_recheck.sh): " + re_line
+    if "check=CAUGHT" in re_line and "check=CAUGHT" not in line:
+        m["lead"]["verdict"] = "first MISSED, CAUGHT after strengthening"
 json.dump(m, open(dst + "/meta.json", "w"), indent=1)
 print(dst, "|", line[:160])
